@@ -67,7 +67,7 @@ pub struct ReaderProp {
     pub mode: Mode,
 }
 
-const CHUNKS: [usize; 14] = [1, 2, 3, 4, 7, 8, 9, 15, 16, 17, 33, 64, 300, 4096];
+const CHUNKS: [usize; 16] = [1, 2, 3, 4, 7, 8, 9, 15, 16, 17, 33, 64, 300, 4096, 16384, 65536];
 
 fn gen_ops(rng: &mut Rng, data_len: usize, crash: bool) -> Vec<ROp> {
     let mut ops = vec![];
@@ -94,7 +94,11 @@ fn gen_ops(rng: &mut Rng, data_len: usize, crash: bool) -> Vec<ROp> {
                 rng.small(40)
             }),
             3 => ROp::RequestMore,
-            4 => ROp::Advance(rng.small(64)),
+            4 => ROp::Advance(if data_len > 4096 && rng.chance(1, 2) {
+                rng.below(data_len)
+            } else {
+                rng.small(64)
+            }),
             5 => ROp::AdvanceAll,
             6 => ROp::AdvanceWithBuf(rng.small(64)),
             7 => ROp::AdvanceUnchecked(rng.small(64)),
@@ -115,6 +119,8 @@ fn gen_ops(rng: &mut Rng, data_len: usize, crash: bool) -> Vec<ROp> {
 
 fn gen_case(rng: &mut Rng, mode: Mode) -> ReaderCase {
     let len = match rng.below(10) {
+        // rare: beyond two default chunks, so that realign/shrink also run with the shipped chunk size
+        _ if !cfg!(miri) && rng.chance(1, 600) => rng.range(40_000, 120_000),
         0 => rng.below(4),
         1..=5 => rng.range(4, 96),
         _ if cfg!(miri) => rng.range(4, 96),
